@@ -72,7 +72,8 @@ PROPS["C09"] = {
                   "set(init) / dict(init) for every finite initialiser (empty, unsorted, repeated keys - later pairs win); foreign-typed "
                   "probes report absent (False / KeyError) with no write to the structure (separate unit with a foreign key sort).",
     "level_note": "Trusted: pyvc, z3, the library contracts named in trusted_base; numeric keys are SMT reals (no NaN). MutableMapping.update, "
-                  "popitem, clear and the mapping views over SortedMap are covered by the bounded layer only.",
+                  "update(pairs) / update(dict) (dict.update: last pair of a key wins, other entries kept, nothing else added), popitem and clear are "
+                  "verified from the stdlib source; update(**kwds) is excluded (string keys); the mapping views over SortedMap are covered by the bounded layer only.",
 }
 PROPS["C19"] = {
     "units": ["contracts.c19_generic:unit_arg_sort", "contracts.c19_generic:unit_subseq", "contracts.c19_generic:unit_batcher",
@@ -81,7 +82,7 @@ PROPS["C19"] = {
     "level": "other",
     "trusted_base": ["pyvc VC generator (/verif/pyvc)", "z3", "Python semantics as listed in DESIGN.md §2.3", "sorted() library contract"],
     "explanation": "Deductive (unbounded) for arg_sort, sub_seq, search_sub_seq, Batcher (len / batch i), BatcherIter on a single iterable; "
-                   "compare_pos_in_iterables (multiset counting needs induction) bounded only; roman numerals by exhaustive "
+                   "compare_pos_in_iterables = multiset equality (result <=> every value occurs equally often; the counting function and its five lemmas - bounds, absence, presence, monotonicity, deletion of one position - proved by induction); roman numerals by exhaustive "
                    "enumeration of the finite domain 1..3999 on the real code; BatcherIter with tuple inputs bounded only. "
                    "The bounded parts are reported under coverage.bounded and are not counted as proved.",
     "level_text": "Proof for the sequence helpers that are functions of unbounded inputs (arg_sort = the stable sorting permutation incl. reverse; "
@@ -145,14 +146,14 @@ PROPS["C20"] = {
     "level": "proof",
     "trusted_base": ["pyvc VC generator (/verif/pyvc)", "z3", "Python semantics as listed in DESIGN.md §2.3",
                      "environment contracts (DESIGN §4): ghost file system, tempfile.NamedTemporaryFile (never-returned-before path), os.remove, "
-                     "multiprocessing.Manager / manager list as a shared local list, file handle close()", "FilePool.open (builtin open per path)"],
+                     "multiprocessing.Manager / manager list as a shared local list, file handle close()", "builtin open(path, mode) returns a new open handle or raises"],
     "level_text": "TmpPool: create returns a path that was never handed out before and exists, appended to the pool (listed paths stay distinct); "
                   "remove(p) leaves p absent and unlisted on both paths (also when the file had already been deleted) and touches no other file; "
                   "flush (loop invariant: processed prefix absent, nothing else touched) leaves none of the listed files and an empty pool; "
                   "__exit__ establishes flush's postcondition for EVERY value of (exc_type, exc_val, exc_tb). FilePool: close and __exit__ (for "
                   "every exception triple) leave every handle of the pool closed; accessors raise RuntimeError iff the pool is not open.",
     "level_note": "Trusted: pyvc, z3 and the environment contracts above; that __exit__ runs however the with-body is left is the language "
-                  "guarantee. Multi-process pools (manager list shared with children) and FilePool.open are covered by the bounded layer only.",
+                  "guarantee. FilePool.open (the dict comprehension over open() executed as the loop it abbreviates): every given path is mapped to a new open handle and no other path. TmpPool.__enter__ forgets no file created before the context was entered. Multi-process pools (manager list shared with children) are covered by the bounded layer only.",
 }
 PROPS["C11"] = {
     "units": ["contracts.c11_linefiles", "contracts.c11_linefiles:unit_mmap"],
@@ -200,7 +201,7 @@ PROPS["C12"] = {
                    "/ clear are verified from the real _collections_abc source through those contracts (index = first occurrence, remove "
                    "deletes exactly it, reverse = the reversed view, clear empties the list); iteration equals indexing; _save_from_iter hands exactly "
                    "strip_nl(V[i]) + line_ending per line, in order, to a freshly opened and finally closed output stream; no mutator has the "
-                   "file system in its frame (source untouched). Bounded only: slices / count / __contains__, the record "
+                   "file system in its frame (source untouched). `x in f` (Sequence.__contains__ through __iter__) is membership in the list view. Bounded only: slices / count, the record "
                    "variants, byte-exactness of the saved file and 'reopening gives the same list'.",
     "level_text": "Proof of the list refinement for the two plain mutable variants over the line-level file model; bounded histories (<= 3/4 ops x 4 "
                   "variants, save + reopen, source bytes) for the rest.",
@@ -213,7 +214,7 @@ PROPS["C14"] = {
     "trusted_base": ["pyvc VC generator (/verif/pyvc)", "z3", "Python semantics as listed in DESIGN.md §2.3",
                      "environment contracts (DESIGN §4): re-entrant RLock = mutual exclusion, manager list / Value as local values under the lock, "
                      "print(flush=True) appends one complete line, readline at the offset of a complete line returns it, files append-only",
-                     "TextFileStorage.open / close (assumed contracts)"],
+                     "string facts for the writer's file name (axioms: str(int) injective, a common prefix cancels); a writer's identifier is its own (rely)"],
     "level_text": "Thread-modular (monitor) proof: the monitor invariant - stored count = number of index entries (counting function with seven "
                   "lemmas proved by induction), _waiting_for = smallest id not stored, and K: every stored id's line is COMPLETE in its writer's "
                   "file at the recorded offset - is required at every outermost lock release (monitor-inv@release), re-assumed together with "
@@ -223,7 +224,7 @@ PROPS["C14"] = {
                   "under the rely) or IndexError; _index is only accessed under the lock (guarded-access); len; is_contiguous <=> ids are "
                   "0..len-1; flush resets everything (quiescent precondition).",
     "level_note": "Ids >= 0, single-line texts, one writer file per process. Attribute reads of the two shared counters are atomic snapshots. "
-                  "__iter__ (generator holding the lock across yields): yields exactly the texts of the ids stored when the lock was taken, in ascending id order, each once, gaps skipped, and releases the lock; open/close are assumed contracts exercised by the bounded layer.",
+                  "__iter__ (generator holding the lock across yields): yields exactly the texts of the ids stored when the lock was taken, in ascending id order, each once, gaps skipped, and releases the lock; open (first open registers and creates a NEW file name under the lock - different from every registered name by the naming invariant; every later open appends; no complete line of a registered file is lost) and close (every handle of the object closed) are verified too; also exercised by the bounded layer.",
 }
 PROPS["C05"] = {
     "units": ["contracts.c05_functormap", "contracts.c05_mulpmap", "contracts.c05_workers", "contracts.c15_buffers"],
@@ -334,7 +335,7 @@ PROPS["C02"] = {
 }
 
 PROPS["C13"] = {
-    "units": ["contracts.c13_records", "contracts.c13_records:unit_files"],
+    "units": ["contracts.c13_records", "contracts.c13_records:unit_files", "contracts.c11_linefiles", "contracts.c11_linefiles:unit_mmap"],
     "bounded": True,
     "level": "other",
     "trusted_base": ["pyvc VC generator (/verif/pyvc)", "z3", "Python semantics as listed in DESIGN.md §2.3",
